@@ -3,11 +3,13 @@
     writer.  Only statements, each closed by [exact <lemma>]; the models are
     Sim/Graph.v (graph files), Sim/RefSim.v (reference), Sim/ImplSim.v (ow-sim's
     data path as atomic actions run under an arbitrary schedule), Sim/Protocol.v
-    (the goroutine/channel protocol as an LTS), Sim/Sched.v (legal schedules);
+    (the goroutine/channel protocol as an LTS, link loop turn by turn), Sim/Sched.v
+    (legal schedules), Sim/SplitProtocol.v (external writer process);
     proofs in Sim/ImplSimProofs.v, Sim/ProtocolProofs.v, Sim/C07Main.v. *)
 From Coq Require Import List Arith Bool.
 From OW Require Import Sim.SimAux Sim.Graph Sim.RefSim Sim.ImplSim Sim.Sched Sim.Protocol
-     Sim.ProtocolProofs Sim.ImplSimProofs Sim.C07Main Sim.SplitProtocol Sim.SplitProtocolProofs.
+     Sim.ProtocolProofs Sim.ImplSimProofs Sim.C07Main Sim.SplitProtocol Sim.SplitProtocolProofs Sim.RunOrder.
+From Coq Require Import Permutation.
 Import ListNotations.
 
 (** ow-sim (canonical schedule: every writer runs as soon as it is spawned) =
@@ -67,6 +69,20 @@ Theorem C07_protocol_run_eq_ref :
     = ref_sim s_zero s_add cat K name_eqb gr sel.
 Proof. exact protocol_run_eq_ref. Qed.
 Print Assumptions C07_protocol_run_eq_ref.
+
+(** The model goroutines of one generation (one per model, started by
+    runGeneration) may complete in any order: running the models one by one in
+    any permutation of the model indices gives the memory - or the crash - of
+    the canonical order used by [ARun]. *)
+Theorem C07_model_goroutine_order_irrelevant :
+  forall (name T Ser : Type) (s_zero : nat -> Ser) (cat : catalogue name)
+         (K : name -> list T -> list T -> list Ser -> option (list Ser * list T))
+         (gr : graph name T Ser) (i : nat) (order : list nat) (refs : list (mref T Ser)),
+    length refs = length (g_models gr) ->
+    Permutation order (seq 0 (length (g_models gr))) ->
+    run_models_order s_zero cat K gr i order refs = run_models s_zero cat K gr i (g_models gr) refs.
+Proof. exact run_models_any_order. Qed.
+Print Assumptions C07_model_goroutine_order_irrelevant.
 
 Theorem C07_protocol_schedule_legal :
   forall (G : nat) (outp : bool) (ls : list plabel) (s : pstate),
@@ -185,7 +201,9 @@ Example C07_nonvacuous :
   impl_sim Ex.s_zero Ex.s_add Ex.cat Ex.K Nat.eqb Ex.gr (Ex.sel []) = Some Ex.expected /\
   ref_sim Ex.s_zero Ex.s_add Ex.cat Ex.K Nat.eqb Ex.gr (Ex.sel []) = Some Ex.expected /\
   accepts_exited 3 true Ex.trace = true /\
-  impl_sim_sched Ex.s_zero Ex.s_add Ex.cat Ex.K Nat.eqb Ex.gr (Ex.sel []) (schedule_of Ex.trace) = Some Ex.expected.
+  impl_sim_sched Ex.s_zero Ex.s_add Ex.cat Ex.K Nat.eqb Ex.gr (Ex.sel []) (schedule_of Ex.trace) = Some Ex.expected /\
+  accepts_exited 3 true Ex.trace_fine = true /\
+  impl_sim_sched Ex.s_zero Ex.s_add Ex.cat Ex.K Nat.eqb Ex.gr (Ex.sel []) (schedule_of Ex.trace_fine) = Some Ex.expected.
 Proof. exact example_nonvacuous. Qed.
 
 Example C07_trace_examples :
